@@ -547,6 +547,13 @@ def gen_burst(rng, gen='G-exec-burst'):
     if rng.random() < 0.4:
         levels[rng.randrange(n)] = levels[rng.randrange(n)]         # a tie
     pre = rng.randint(1, 3)
+    # sometimes all containers belong to ONE pipeline with n independent operators (as under overbook), several of
+    # them with bit-identical usage and allocation: exact score ties inside a pipeline
+    one_pipe = rng.random() < 0.4
+    if one_pipe:
+        k0 = rng.randrange(n)
+        for j in rng.sample(range(n), min(n, rng.randint(2, 4))):
+            levels[j] = levels[k0]
     pipes = [(rng.choice([1, 2, 3]), [[]]) for _ in range(n)]
     segs = []
     for m in levels:
@@ -556,11 +563,18 @@ def gen_burst(rng, gen='G-exec-burst'):
         sg.append(dict(baseline_cpu_seconds=float(max(1, post)) / tps, cpu_scaling='const', storage_read_gb=0.0,
                        memory_gb=float(m)))
         segs.append([sg])
+    if one_pipe:
+        post = rng.choice([1, 2, 4])
+        segs = [[[dict(sg[0]), dict(sg[1], baseline_cpu_seconds=float(post) / tps)] for (sg,) in segs]]
+        pipes = [(pipes[0][0], [[] for _ in range(n)])]
     cfg = dict(gen=gen, tps=tps, over=1, multi=rng.choice([0, 1]), npools=rng.choice([1, 1, 2]), cpu=16, ram=cap,
                pipes=pipes, segs=segs, ticks=[], bad=None)
     run = ExecRun(cfg)
     allocs = [rng.choice([cap, cap, cap / 2.0, levels[k], max(0.5, levels[k] - 0.5)]) for k in range(n)]
-    t0 = dict(susp=[], asg=[([k], 1, allocs[k], pipes[k][0], rng.randrange(cfg['npools']) if rng.random() < 0.2 else 0)
+    if one_pipe:
+        allocs = [cap] * n
+    t0 = dict(susp=[], asg=[([k], 1, allocs[k], pipes[0 if one_pipe else k][0],
+                             rng.randrange(cfg['npools']) if (rng.random() < 0.2 and not one_pipe) else 0)
                             for k in range(n)])
     cfg['ticks'].append(t0)
     run.step(t0)
